@@ -30,7 +30,7 @@ KnownEvent == E.ev \in {"CurveFromFluxes", "Point", "CurveFromPermeances", "PPoi
 \* |dpp_i/dy| * prec / |pf_i - pp_i| relative
 Scale(i) == FMul(O.Pin[i], FAdd(Lit("1.0"), FDiv(FMul(FMul(Lit("3e10"), FAbs(E.dpp[i])), O.prec),
                                                    FAbs(FSub(E.pf[i], E.pp_mass[i])))))
-Usable == E.ev = "Point" /\ FLt(E.L, Lit("0.5")) /\ FIsFinite(E.Pout[1]) /\ FIsFinite(E.Pout[2])
+Usable == E.ev = "Point" /\ FLt(E.L, Lit("0.97"))      \* (the solver ran at precision 1e-10: the slope at the stopping point is the slope between the last iterates) /\ FIsFinite(E.Pout[1]) /\ FIsFinite(E.Pout[2])
 Strict == C!InvertsForward(O.Pin, E.Pout, Scale(1), Scale(2))
 \* named deviation D7: in the permeate-pressure mode the code inverts with mole fractions
 AsImplementedD7 == O.mode = "press" /\
